@@ -1,0 +1,58 @@
+//go:build verif
+
+package curl
+
+// Machine-checked contracts for this package (read by /verif/govc; comment-only, compiled only
+// with -tags verif). See /verif/DESIGN.md.
+//
+// The 64 lanes of the bit-sliced state are the 64 bits of a machine word (uint = 64-bit vector).
+// A trit is stored as the bit pair (l, h): -1 = (1,0), 0 = (1,1), 1 = (0,1). tsbox is the Curl-P
+// truth table {1,0,-1,2,1,-1,0,2,-1,1,0}[a + 4b + 5]; idx(i) = 364*i mod 729 is the rotation of the
+// round function (written in closed form, lemma idx_is_rotation ties it to 364*i mod 729); st(n, i, w, l0, h0) is word i (w = 0: low plane, 1: high plane) after n rounds.
+
+//@ props C20 C06
+
+//@ spec idx(i int) int = ite(i%2 == 0, ite(i == 0, 0, 729 - i/2), 364 - (i-1)/2)
+//@ fun sbL(aL uint, aH uint, bL uint, bH uint) uint = ^(aL & (aH ^ bL))
+//@ fun sbH(aL uint, aH uint, bL uint, bH uint) uint = (aL ^ bH) | (aL & (aH ^ bL))
+//@ spec tsbox(a int, b int) int = ite(a == -1 && b == -1, 1, ite(a == 0 && b == -1, 0, ite(a == 1 && b == -1, -1, ite(a == -1 && b == 0, 1, ite(a == 0 && b == 0, -1, ite(a == 1 && b == 0, 0, ite(a == -1 && b == 1, -1, ite(a == 0 && b == 1, 1, 0))))))))
+//@ spec lbit(x uint, j uint) int = int((x >> j) & 1)
+//@ spec trit(l uint, h uint, j uint) int = lbit(h, j) - lbit(l, j)
+//@ spec validcode(l uint, h uint, j uint) bool = lbit(l, j) == 1 || lbit(h, j) == 1
+//@ rec st(n int, i int, w int, l0 [729]uint, h0 [729]uint) uint = ite(n <= 0, ite(w == 0, l0[i], h0[i]), ite(w == 0, sbL(st(n-1, idx(i), 0, l0, h0), st(n-1, idx(i), 1, l0, h0), st(n-1, idx(i+1), 0, l0, h0), st(n-1, idx(i+1), 1, l0, h0)), sbH(st(n-1, idx(i), 0, l0, h0), st(n-1, idx(i), 1, l0, h0), st(n-1, idx(i+1), 0, l0, h0), st(n-1, idx(i+1), 1, l0, h0))))
+
+//@ lemma idx_is_rotation(i int)
+//@   props C20 C06
+//@   requires 0 <= i && i <= 729
+//@   ensures  idx(i) == (364*i) % 729
+//@   ensures  0 <= idx(i) && idx(i) < 729
+
+//@ lemma sbox_is_curlp_truth_table(aL uint, aH uint, bL uint, bH uint, j uint)
+//@   props C20 C06
+//@   repr uint
+//@   requires j < 64
+//@   requires validcode(aL, aH, j) && validcode(bL, bH, j)
+//@   ensures  validcode(sbL(aL, aH, bL, bH), sbH(aL, aH, bL, bH), j)
+//@   ensures  trit(sbL(aL, aH, bL, bH), sbH(aL, aH, bL, bH), j) == tsbox(trit(aL, aH, j), trit(bL, bH, j))
+
+//@ func sBox(aL uint, aH uint, bL uint, bH uint) (rL uint, rH uint)
+//@   repr uint
+//@   ensures rL == sbL(aL, aH, bL, bH) && rH == sbH(aL, aH, bL, bH)
+//@   panics  never
+
+//@ func transformGeneric(lto *[StateSize]uint, hto *[StateSize]uint, lfrom *[StateSize]uint, hfrom *[StateSize]uint)
+//@   repr uint
+//@   requires lto != nil && hto != nil && lfrom != nil && hfrom != nil
+//@   ensures  forall(i, 0, 729, (*lto)[i] == st(81, i, 0, old(*lfrom), old(*hfrom)) && (*hto)[i] == st(81, i, 1, old(*lfrom), old(*hfrom)))
+//@   modifies *lto
+//@   modifies *hto
+//@   modifies *lfrom
+//@   modifies *hfrom
+//@   panics   never
+//@   loop 1 invariant 0 <= r && r <= 81
+//@   loop 1 invariant implies((81-r)%2 == 0, sameptr(lfrom, old(lfrom)) && sameptr(hfrom, old(hfrom)) && sameptr(lto, old(lto)) && sameptr(hto, old(hto)))
+//@   loop 1 invariant implies((81-r)%2 == 1, sameptr(lfrom, old(lto)) && sameptr(hfrom, old(hto)) && sameptr(lto, old(lfrom)) && sameptr(hto, old(hfrom)))
+//@   loop 1 invariant forall(i, 0, 729, (*lfrom)[i] == st(81-r, i, 0, old(*lfrom), old(*hfrom)) && (*hfrom)[i] == st(81-r, i, 1, old(*lfrom), old(*hfrom)))
+//@   loop 1.1 invariant 1 <= i && i <= 729 && i%4 == 1 && t == idx(i) && bL == (*lfrom)[t] && bH == (*hfrom)[t]
+//@   loop 1.1 invariant forall(m, 0, i, (*lto)[m] == sbL((*lfrom)[idx(m)], (*hfrom)[idx(m)], (*lfrom)[idx(m+1)], (*hfrom)[idx(m+1)]))
+//@   loop 1.1 invariant forall(m, 0, i, (*hto)[m] == sbH((*lfrom)[idx(m)], (*hfrom)[idx(m)], (*lfrom)[idx(m+1)], (*hfrom)[idx(m+1)]))
